@@ -81,7 +81,10 @@ Inductive tok :=
 | TLET | TEQ | TIF | TTHEN | TELSE | TELIF | TMATCH | TWITH | TBAR | TARROW | TFUN
 | TLP | TRP | TCOMMA
 | TOP (o : nat)     (* binary operator other than '=' ( |> && || < > <= >= <> + - * / ) *)
-| TSEP (a : nat)    (* ; } ] : end a term, never consumed by the skeleton *)
+| TDOT              (* . : an atom; after a field name in a record literal it starts a specified initializer *)
+| TLB | TRB         (* { } *)
+| TLS | TRS         (* [ ] *)
+| TSEMI             (* ; *)
 | TTYPE             (* type *)
 | TKW (k : nat)     (* package import package_info and *)
 | TEOL.
@@ -106,6 +109,8 @@ Inductive expr :=
 with atom :=
 | AT (t : tok)
 | APar (es : list expr)                             (* ()  (e)  (e, e) *)
+| ARec (fs : list (list tok * expr))                (* { f = e; g = e } *)
+| ASlice (es : list expr)                           (* [ e; e ] *)
 with stmt :=
 | SLet (hdr : list tok) (e : expr)                  (* let x = e ; let (a, b) = e *)
 | SLetFn (hdr : list tok) (b : block)               (* let f p ... = block *)
@@ -115,7 +120,8 @@ with rule := Rule (pat : list tok) (b : block).
 
 Inductive root :=
 | RLet (s : stmt)
-| RType (hdr : list tok) (cases : list (list tok))
+| RType (hdr : list tok) (cases : list (list tok))     (* union cases / record fields / the tokens of an alias *)
+| RInfo (hdr : list tok) (defs : list (list tok))       (* package_info x = / definitions, one per line *)
 | ROther (l : list tok).
 
 Fixpoint skip_eol (ts : list ptok) : list ptok :=
@@ -129,7 +135,7 @@ Definition end_of_term (ts : list ptok) : bool :=
   | [] => true
   | (t, _) :: _ =>
       match t with
-      | TEOL | TSEP _ | TRP | TWITH | TTHEN | TELSE | TELIF | TCOMMA => true
+      | TEOL | TSEMI | TRB | TRS | TRP | TWITH | TTHEN | TELSE | TELIF | TCOMMA => true
       | _ => is_binop t
       end
   end.
@@ -172,6 +178,13 @@ Definition never (t : tok) := false.
 Definition is_var_hdr (hdr : list tok) : bool :=
   match hdr with TLP :: _ => true | [_] => true | _ => false end.
 
+(** psIdentNameNxL [DOT psIdentNameNxL]: the name of a field initializer, EOLs after it skipped *)
+Definition field_name (x : nat) (ts : list ptok) : list tok * list ptok :=
+  match skip_eol ts with
+  | (TDOT, _) :: (TA y, _) :: r' => ([TA x; TDOT; TA y], skip_eol r')
+  | r' => ([TA x], r')
+  end.
+
 Definition last_is_expr (ss : list stmt) : bool :=
   match last ss (SLet [] (EApp [])) with SExpr _ => true | _ => false end.
 
@@ -206,6 +219,7 @@ with p_term (n : nat) (off : nat) (ts : list ptok) {struct n} : res (expr * list
       | _ => Reject
       end
   | (TIF, _) :: r => p_if n off r
+  | (TLS, _) :: _ => let* (a, r) := p_atom n off ts in Ok (EApp [a], r)     (* parseSliceExpr: no atom list *)
   | _ => let* (l, r) := p_atoms n off ts in Ok (EApp l, r)
   end end
 (* parseIfAfterIfExpr *)
@@ -264,6 +278,14 @@ with p_atom (n : nat) (off : nat) (ts : list ptok) {struct n} : res (atom * list
   | (TA a, _) :: r => Ok (AT (TA a), r)
   | (TSTR a, _) :: r => Ok (AT (TSTR a), r)
   | (TUS, _) :: r => Ok (AT TUS, r)
+  | (TDOT, _) :: r => Ok (AT TDOT, r)
+  | (TLB, _) :: r =>                                      (* parseRecordGen *)
+      let* (fs, r1) := p_fields n off r in
+      match r1 with (TRB, _) :: r2 => Ok (ARec fs, r2) | _ => Reject end
+  | (TLS, _) :: r =>                                      (* parseSliceExpr *)
+      let* (e, r1) := p_expr n off r in
+      let* (es, r2) := p_semis n off r1 in
+      match r2 with (TRS, _) :: r3 => Ok (ASlice (e :: es), r3) | _ => Reject end
   | (TLP, _) :: (TRP, _) :: r => Ok (APar [], r)
   | (TLP, _) :: r =>
       let* (e, r1) := p_expr n off r in
@@ -281,6 +303,34 @@ with p_commas (n : nat) (off : nat) (ts : list ptok) {struct n} : res (list expr
       let* (e, r1) := p_expr n off r in
       let* (es, r2) := p_commas n off r1 in Ok (e :: es, r2)
   | _ => Ok ([], ts)
+  end end
+(* parseSemiExprs: (; expr)* without any EOL skipping *)
+with p_semis (n : nat) (off : nat) (ts : list ptok) {struct n} : res (list expr * list ptok) :=
+  match n with O => Fuel | S n =>
+  match ts with
+  | (TSEMI, _) :: r =>
+      let* (e, r1) := p_expr n off r in
+      let* (es, r2) := p_semis n off r1 in Ok (e :: es, r2)
+  | _ => Ok ([], ts)
+  end end
+(* parseFieldInitializers / parseFiIni: name EOL* [. name EOL*] = EOL* expr, then '}' or ';' and the next
+   field on the same line *)
+with p_fields (n : nat) (off : nat) (ts : list ptok) {struct n} : res (list (list tok * expr) * list ptok) :=
+  match n with O => Fuel | S n =>
+  match ts with
+  | (TA x, _) :: r =>
+      let '(nm, r1) := field_name x r in
+      match r1 with
+      | (TEQ, _) :: r2 =>
+          let* (e, r3) := p_expr n off (skip_eol r2) in
+          match r3 with
+          | (TRB, _) :: _ => Ok ([(nm, e)], r3)
+          | (TSEMI, _) :: r4 => let* (fs, r5) := p_fields n off r4 in Ok ((nm, e) :: fs, r5)
+          | _ => Reject
+          end
+      | _ => Reject
+      end
+  | _ => Reject
   end end
 (* parseMatchRules *)
 with p_rules (n : nat) (off : nat) (ts : list ptok) {struct n} : res (list rule * list ptok) :=
@@ -370,6 +420,42 @@ Fixpoint p_cases (n : nat) (ts : list ptok) : res (list (list tok) * list ptok) 
   | _ => Reject
   end end.
 
+(** parseFieldDefs: EOL* name EOL* type tokens, then '}' or ';' EOL* ('}' | more fields) *)
+Definition is_semi_or_rb (t : tok) := match t with TSEMI | TRB => true | _ => false end.
+Fixpoint p_fdefs (n : nat) (ts : list ptok) : res (list (list tok) * list ptok) :=
+  match n with O => Fuel | S n =>
+  match skip_eol ts with
+  | (TA x, _) :: r =>
+      let '(ty, r1) := span_until is_semi_or_rb (skip_eol r) in
+      match r1 with
+      | (TRB, _) :: _ => Ok ([TA x :: ty], r1)
+      | (TSEMI, _) :: r2 =>
+          match skip_eol r2 with
+          | (TRB, _) :: _ => Ok ([TA x :: ty], skip_eol r2)
+          | _ => let* (fs, r3) := p_fdefs n r2 in Ok ((TA x :: ty) :: fs, r3)
+          end
+      | _ => Reject
+      end
+  | _ => Reject
+  end end.
+
+(** parseExtDefs: the definitions of a package_info block, one per line, until a token left of the block *)
+Fixpoint p_extdefs (n : nat) (c : nat) (ts : list ptok) : res (list (list tok) * list ptok) :=
+  match n with O => Fuel | S n =>
+  match ts with
+  | (t, _) :: _ =>
+      match t with
+      | TLET | TTYPE =>
+          let '(l, r) := span_until never ts in
+          let r' := skip_eol r in
+          if end_of_block c r' then Ok ([l], r')
+          else let* (ds, r'') := p_extdefs n c r' in Ok (l :: ds, r'')
+      | _ => Reject                                        (* "Unknown pkginfo def" *)
+      end
+  | [] => Reject
+  end end.
+Definition is_pkginfo (k : nat) : bool := Nat.eqb k 0.    (* TKW 0 = package_info (the harness's numbering) *)
+
 (** parseRootStmts: root statements are not tested against any column *)
 Fixpoint p_root (n : nat) (ts : list ptok) : res (list root) :=
   match n with O => Fuel | S n =>
@@ -386,6 +472,12 @@ Fixpoint p_root (n : nat) (ts : list ptok) : res (list root) :=
           | (TBAR, _) :: _ =>
               let* (cs, r3) := p_cases n (skip_eol r2) in
               let* rs := p_root n r3 in Ok (RType hdr cs :: rs)
+          | (TLB, _) :: r3 =>                              (* parseRecordDef *)
+              let* (fs, r4) := p_fdefs n r3 in
+              match r4 with
+              | (TRB, _) :: r5 => let* rs := p_root n r5 in Ok (RType hdr fs :: rs)
+              | _ => Reject
+              end
           | _ =>
               let '(l, r3) := span_until never (skip_eol r2) in
               let* rs := p_root n r3 in Ok (RType hdr [l] :: rs)
@@ -393,15 +485,29 @@ Fixpoint p_root (n : nat) (ts : list ptok) : res (list root) :=
       | _ => Reject
       end
   | (TKW k, _) :: r =>
-      let '(l, r1) := span_until never r in
-      let* rs := p_root n r1 in Ok (ROther (TKW k :: l) :: rs)
+      if is_pkginfo k then                                 (* parsePackageInfo: psPushOffside, parseExtDefs *)
+        let '(hdr, r1) := span_until is_eq r in
+        match r1 with
+        | (TEQ, _) :: r2 =>
+            match skip_eol r2 with
+            | (_, c) :: _ =>
+                if c <=? 0 then Reject
+                else let* (ds, r3) := p_extdefs n c (skip_eol r2) in
+                     let* rs := p_root n r3 in Ok (RInfo hdr ds :: rs)
+            | [] => Reject
+            end
+        | _ => Reject
+        end
+      else
+        let '(l, r1) := span_until never r in
+        let* rs := p_root n r1 in Ok (ROther (TKW k :: l) :: rs)
   | _ => Reject                                            (* "Unknown stmt" *)
   end end.
 
 Definition parse_blocks (n : nat) (ts : list ptok) : res (list root) := p_root n ts.
 
 (** enough for every token list: each call consumes fuel 1 and at most 10 calls separate two tokens *)
-Definition fuel_for (ts : list ptok) : nat := 16 + 12 * List.length ts.
+Definition fuel_for (ts : list ptok) : nat := 16 + 14 * List.length ts.
 
 Definition map_cols (rho : nat -> nat) (ts : list ptok) : list ptok :=
   map (fun p => (fst p, rho (snd p))) ts.
@@ -418,6 +524,12 @@ Definition map_cols (rho : nat -> nat) (ts : list ptok) : list ptok :=
 Definition sxt := (nat * list nat)%type.                    (* f a b *)
 Definition sx := (sxt * list (nat * sxt))%type.             (* t0 op1 t1 op2 t2 *)
 
+(** groups: ( e, e )   [ e; e ]   { f = e; g = e } *)
+Inductive gkind := GPar | GSlice | GRec.
+(** a record field's name with its layout: EOLs (and the column of '=') after the name, EOLs (and the column
+    of the value) after '=' *)
+Definition lfld := (nat * option (nat * nat) * option (nat * nat))%type.
+
 Inductive lpat :=
 | PCase (cn : nat) (v : option nat)                        (* | Case ->   | Case v -> *)
 | PDef.                                                    (* | _ -> *)
@@ -427,6 +539,14 @@ Inductive latom :=
 | LS (a : nat)
 | LLam (ps : list nat) (b : lbody) (cl : option (nat * nat))
       (* (fun ps -> body)   cl = Some (blanks, column): the ')' stands on a line of its own *)
+| LUnit                                                    (* () *)
+| LGroup (k : gkind) (f : option lfld) (e : lexpr) (more : lseq) (cl : option (nat * nat))
+      (* opening token, first element (for a record: field name = value), further elements, closing token
+         (cl = Some (blanks, column): on a line of its own) *)
+(* separator (sb = Some (blanks, column): on a line of its own), then the next element on the separator's line *)
+with lseq :=
+| QNil
+| QCons (sb : option (nat * nat)) (f : option lfld) (c : nat) (e : lexpr) (more : lseq)
 with latoms :=
 | ANil
 | ACons (col : nat) (a : latom) (l : latoms)
@@ -460,6 +580,7 @@ with lexpr :=
       (* application, then an operator (brk = Some (blanks, column): on a line of its own), then the rest *)
 with lstmt :=
 | LLet (x : nat) (nl : option (nat * nat)) (e : lexpr)     (* nl = Some (blanks, column): right-hand side on a later line *)
+| LLetD (x y : nat) (zs : list nat) (nl : option (nat * nat)) (e : lexpr)   (* let (x, y, zs...) = e *)
 | LLetFn (f : nat) (p : nat) (ps : list nat) (b : lbody)
 | LExpr (e : lexpr)
 with lblock :=
@@ -475,7 +596,16 @@ with lsarms :=
 | SLast (bcol : nat) (fin : option nat) (b : lbody)        (* | v ->  (Some v)   or   | _ ->  (None) *)
 | SCons (bcol : nat) (lit : nat) (b : lbody) (bl : nat) (r : lsarms).
 
-Definition lprog := list (nat * nat * lstmt).               (* blanks before, column, root let *)
+(** root items. Union cases stand at any column; the definitions of a package_info block form an offside
+    block; package / import lines are single lines *)
+Inductive lroot :=
+| RLetL (s : lstmt)
+| RUnionL (name : nat) (b0 : nat) (c0 : nat) (case0 : list nat) (cases : list (nat * nat * list nat))
+      (* type name = EOLs | case0 at column c0, then (blanks, column, case tokens)... *)
+| RInfoL (name : nat) (b0 : nat) (c0 : nat) (d0 : list nat) (defs : list (nat * nat * list nat))
+      (* package_info name = EOLs, let d0 at column c0, then (blanks, column, tokens of a let)... *)
+| RLineL (k : nat) (toks : list nat).                      (* package x / import x *)
+Definition lprog := list (nat * nat * lroot).               (* blanks before, column, root item *)
 
 Section Render.
 Variable inner : nat.
@@ -495,6 +625,29 @@ Definition r_pat (p : lpat) : list ptok :=
   | PCase cn (Some v) => [(TA cn, inner); (TA v, inner)]
   | PDef => [(TUS, inner)]
   end.
+Definition g_open (k : gkind) : tok := match k with GPar => TLP | GSlice => TLS | GRec => TLB end.
+Definition g_close (k : gkind) : tok := match k with GPar => TRP | GSlice => TRS | GRec => TRB end.
+Definition g_sep (k : gkind) : tok := match k with GPar => TCOMMA | _ => TSEMI end.
+Definition r_gclose (k : gkind) (cl : option (nat * nat)) : list ptok :=
+  match cl with None => [(g_close k, inner)] | Some (bl, c) => nl bl ++ [(g_close k, c)] end.
+Definition r_sep (k : gkind) (sb : option (nat * nat)) : list ptok :=
+  match sb with None => [(g_sep k, inner)] | Some (bl, c) => nl bl ++ [(g_sep k, c)] end.
+(* the part of a record field before its value; returns the column of the value *)
+Definition r_fld (c : nat) (f : option lfld) : list ptok :=
+  match f with
+  | None => []
+  | Some (x, n1, n2) =>
+      (TA x, c) :: match n1 with None => [(TEQ, inner)] | Some (bl, c1) => nl bl ++ [(TEQ, c1)] end ++
+      match n2 with None => [] | Some (bl, _) => nl bl end
+  end.
+Definition fld_col (c : nat) (f : option lfld) : nat :=
+  match f with
+  | None => c
+  | Some (_, _, None) => inner
+  | Some (_, _, Some (_, c2)) => c2
+  end.
+Fixpoint r_dnames (zs : list nat) : list ptok :=
+  match zs with [] => [] | z :: zs' => (TCOMMA, inner) :: (TA z, inner) :: r_dnames zs' end.
 Definition r_close (cl : option (nat * nat)) : list ptok :=
   match cl with None => [(TRP, inner)] | Some (bl, c) => nl bl ++ [(TRP, c)] end.
 Definition r_brk (brk : option (nat * nat)) (o : nat) : list ptok :=
@@ -505,6 +658,14 @@ Fixpoint r_atom (c : nat) (a : latom) : list ptok :=
   | LA x => [(TA x, c)]
   | LS x => [(TSTR x, c)]
   | LLam ps b cl => (TLP, c) :: (TFUN, inner) :: atoks ps ++ (TARROW, inner) :: r_body b ++ r_close cl
+  | LUnit => [(TLP, c); (TRP, inner)]
+  | LGroup k f e more cl =>
+      (g_open k, c) :: r_fld inner f ++ r_expr (fld_col inner f) e ++ r_seq k more ++ r_gclose k cl
+  end
+with r_seq (k : gkind) (q : lseq) : list ptok :=
+  match q with
+  | QNil => []
+  | QCons sb f c e more => r_sep k sb ++ r_fld c f ++ r_expr (fld_col c f) e ++ r_seq k more
   end
 with r_atoms (l : latoms) : list ptok :=
   match l with ANil => [] | ACons c a l' => r_atom c a ++ r_atoms l' end
@@ -545,6 +706,12 @@ with r_stmt (c : nat) (s : lstmt) : list ptok :=
   match s with
   | LLet x None e => (TLET, c) :: (TA x, inner) :: (TEQ, inner) :: r_expr inner e
   | LLet x (Some (bl, c')) e => (TLET, c) :: (TA x, inner) :: (TEQ, inner) :: nl bl ++ r_expr c' e
+  | LLetD x y zs None e =>
+      (TLET, c) :: (TLP, inner) :: (TA x, inner) :: (TCOMMA, inner) :: (TA y, inner) :: r_dnames zs ++
+      (TRP, inner) :: (TEQ, inner) :: r_expr inner e
+  | LLetD x y zs (Some (bl, c')) e =>
+      (TLET, c) :: (TLP, inner) :: (TA x, inner) :: (TCOMMA, inner) :: (TA y, inner) :: r_dnames zs ++
+      (TRP, inner) :: (TEQ, inner) :: nl bl ++ r_expr c' e
   | LLetFn f p ps b => (TLET, c) :: (TA f, inner) :: (TA p, inner) :: atoks ps ++ (TEQ, inner) :: r_body b
   | LExpr e => r_expr c e
   end
@@ -564,10 +731,29 @@ with r_sarms (a : lsarms) : list ptok :=
   | SCons bc lit b bl r => (TBAR, bc) :: (TSTR lit, inner) :: (TARROW, inner) :: r_body b ++ nl bl ++ r_sarms r
   end.
 
+Fixpoint r_cases (cs : list (nat * nat * list nat)) : list ptok :=
+  match cs with
+  | [] => []
+  | (bl, c, toks) :: cs' => nl bl ++ (TBAR, c) :: atoks toks ++ r_cases cs'
+  end.
+Fixpoint r_defs (ds : list (nat * nat * list nat)) : list ptok :=
+  match ds with
+  | [] => []
+  | (bl, c, toks) :: ds' => nl bl ++ (TLET, c) :: atoks toks ++ r_defs ds'
+  end.
+Definition r_root (c : nat) (x : lroot) : list ptok :=
+  match x with
+  | RLetL s => r_stmt c s
+  | RUnionL name b0 c0 case0 cases =>
+      (TTYPE, c) :: (TA name, inner) :: (TEQ, inner) :: nl b0 ++ (TBAR, c0) :: atoks case0 ++ r_cases cases
+  | RInfoL name b0 c0 d0 defs =>
+      (TKW 0, c) :: (TA name, inner) :: (TEQ, inner) :: nl b0 ++ (TLET, c0) :: atoks d0 ++ r_defs defs
+  | RLineL k toks => (TKW (S k), c) :: atoks toks
+  end.
 Fixpoint r_prog (p : lprog) : list ptok :=
   match p with
   | [] => []
-  | (bl, c, s) :: p' => eols bl ++ r_stmt c s ++ nl 0 ++ r_prog p'
+  | (bl, c, x) :: p' => eols bl ++ r_root c x ++ nl 0 ++ r_prog p'
   end.
 End Render.
 
@@ -579,12 +765,26 @@ Definition er_sx (s : sx) : expr := er_sxrest (er_sxt (fst s)) (snd s).
 Definition er_pat (p : lpat) : list tok :=
   match p with PCase cn None => [TA cn] | PCase cn (Some v) => [TA cn; TA v] | PDef => [TUS] end.
 
+Definition er_fld (f : option lfld) : list tok := match f with Some (x, _, _) => [TA x] | None => [] end.
+Fixpoint er_dnames (zs : list nat) : list tok :=
+  match zs with [] => [] | z :: zs' => TCOMMA :: TA z :: er_dnames zs' end.
 Fixpoint er_atom (a : latom) : atom :=
   match a with
   | LA x => AT (TA x)
   | LS x => AT (TSTR x)
   | LLam ps b _ => APar [EFun (map TA ps) (er_body b)]
+  | LUnit => APar []
+  | LGroup k f e more _ =>
+      match k with
+      | GPar => APar (er_expr e :: er_seq more)
+      | GSlice => ASlice (er_expr e :: er_seq more)
+      | GRec => ARec ((er_fld f, er_expr e) :: er_fseq more)
+      end
   end
+with er_seq (q : lseq) : list expr :=
+  match q with QNil => [] | QCons _ _ _ e more => er_expr e :: er_seq more end
+with er_fseq (q : lseq) : list (list tok * expr) :=
+  match q with QNil => [] | QCons _ f _ e more => (er_fld f, er_expr e) :: er_fseq more end
 with er_atoms (l : latoms) : list atom :=
   match l with ANil => [] | ACons _ a l' => er_atom a :: er_atoms l' end
 with er_term (t : lterm) : expr :=
@@ -628,6 +828,7 @@ with er_cont (cur : expr) (o : nat) (e : lexpr) : expr :=
 with er_stmt (s : lstmt) : stmt :=
   match s with
   | LLet x _ e => SLet [TA x] (er_expr e)
+  | LLetD x y zs _ e => SLet (TLP :: TA x :: TCOMMA :: TA y :: er_dnames zs ++ [TRP]) (er_expr e)
   | LLetFn f p ps b => SLetFn (TA f :: TA p :: map TA ps) (er_body b)
   | LExpr e => SExpr (er_expr e)
   end
@@ -647,7 +848,14 @@ with er_sarms (a : lsarms) : list rule :=
   | SCons _ lit b _ r => Rule [TSTR lit] (er_body b) :: er_sarms r
   end.
 
-Definition er_prog (p : lprog) : list root := map (fun x => RLet (er_stmt (snd x))) p.
+Definition er_root (x : lroot) : root :=
+  match x with
+  | RLetL s => RLet (er_stmt s)
+  | RUnionL name _ _ case0 cases => RType [TA name] (map TA case0 :: map (fun c => map TA (snd c)) cases)
+  | RInfoL name _ _ d0 defs => RInfo [TA name] ((TLET :: map TA d0) :: map (fun d => TLET :: map TA (snd d)) defs)
+  | RLineL k toks => ROther (TKW (S k) :: map TA toks)
+  end.
+Definition er_prog (p : lprog) : list root := map (fun x => er_root (snd x)) p.
 
 (** --- which layouts keep the block structure --- *)
 Definition bcol (b : lblock) : nat := match b with LB c _ _ => c end.
@@ -681,7 +889,7 @@ Definition term_bd (t : lterm) : option nat :=
 Fixpoint expr_bd (e : lexpr) : option nat :=
   match e with LT t => term_bd t | LOp _ _ _ _ e' => expr_bd e' end.
 Definition stmt_bd (s : lstmt) : option nat :=
-  match s with LLet _ _ e => expr_bd e | LLetFn _ _ _ b => Some (body_col b) | LExpr e => expr_bd e end.
+  match s with LLet _ _ e => expr_bd e | LLetD _ _ _ _ e => expr_bd e | LLetFn _ _ _ b => Some (body_col b) | LExpr e => expr_bd e end.
 (** does the construct end with something of its own block that takes a following token standing inside
     the offside line: the arms of a union match take a '|', a one-line if without else takes an else/elif
     on a later line? (then such a token must be left of that block) *)
@@ -702,7 +910,7 @@ Definition term_tm (t : lterm) : bool :=
 Fixpoint expr_tm (e : lexpr) : bool :=
   match e with LT t => term_tm t | LOp _ _ _ _ e' => expr_tm e' end.
 Definition stmt_tm (s : lstmt) : bool :=
-  match s with LLet _ _ e => expr_tm e | LLetFn _ _ _ _ => false | LExpr e => expr_tm e end.
+  match s with LLet _ _ e => expr_tm e | LLetD _ _ _ _ e => expr_tm e | LLetFn _ _ _ _ => false | LExpr e => expr_tm e end.
 
 (** is an if without else still open where the construct ends? (a following else/elif would attach to
     it: the dangling else goes to the innermost if) *)
@@ -730,7 +938,7 @@ with body_io (b : lbody) : bool :=
 with expr_io (e : lexpr) : bool :=
   match e with LT t => term_io t | LOp _ _ _ _ e' => expr_io e' end
 with stmt_io (s : lstmt) : bool :=
-  match s with LLet _ _ e => expr_io e | LLetFn _ _ _ b => body_io b | LExpr e => expr_io e end
+  match s with LLet _ _ e => expr_io e | LLetD _ _ _ _ e => expr_io e | LLetFn _ _ _ b => body_io b | LExpr e => expr_io e end
 with block_io (b : lblock) : bool :=
   match b with LB _ s r => rest_io (stmt_io s) r end
 (* [d]: the answer for the statement before [r] *)
@@ -745,16 +953,42 @@ Definition under (bd : option nat) (c : nat) : Prop := match bd with None => Tru
 Definition is_lexpr (s : lstmt) : Prop := match s with LExpr _ => True | _ => False end.
 Definition not_default (p : lpat) : Prop := match p with PDef => False | _ => True end.
 
+(** the token after an element: on the same line exactly when the element ends with an atom; after an
+    element that ends with a block it stands on a later line, strictly left of that block (a ')' may also
+    follow the block's last line directly, at any column) *)
+Definition sep_ok (bd : option nat) (sb : option (nat * nat)) : Prop :=
+  match bd, sb with
+  | None, None => True
+  | Some b, Some (_, c) => c < b
+  | _, _ => False
+  end.
+Definition close_ok (k : gkind) (bd : option nat) (cl : option (nat * nat)) : Prop :=
+  match k, bd with
+  | GPar, Some _ => True
+  | _, _ => sep_ok bd cl
+  end.
+Definition fld_ok (k : gkind) (f : option lfld) : Prop :=
+  match k, f with GRec, Some _ => True | GRec, None => False | _, None => True | _, Some _ => False end.
+Definition is_slice (a : latom) : bool := match a with LGroup GSlice _ _ _ _ => true | _ => false end.
+
 Fixpoint wf_atom (off : nat) (a : latom) : Prop :=
   match a with
   | LA _ => True | LS _ => True
   | LLam _ b _ => wf_body off b
+  | LUnit => True
+  | LGroup k f e more cl => fld_ok k f /\ wf_expr off e /\ wf_seq off k (expr_bd e) more cl
+  end
+(* [bd]: what the previous element leaves open *)
+with wf_seq (off : nat) (k : gkind) (bd : option nat) (q : lseq) (cl : option (nat * nat)) : Prop :=
+  match q with
+  | QNil => close_ok k bd cl
+  | QCons sb f _ e more => sep_ok bd sb /\ fld_ok k f /\ wf_expr off e /\ wf_seq off k (expr_bd e) more cl
   end
 with wf_atoms (off : nat) (l : latoms) : Prop :=
   match l with ANil => True | ACons _ a l' => wf_atom off a /\ wf_atoms off l' end
 with wf_term (off : nat) (t : lterm) : Prop :=
   match t with
-  | LApp a l => wf_atom off a /\ wf_atoms off l
+  | LApp a l => wf_atom off a /\ wf_atoms off l /\ (is_slice a = true -> l = ANil)   (* parseTerm: [..] is a term *)
   | LIf _ tl => wf_tail off tl
   | LMatch _ _ arms =>
       match arms with MLast _ p _ => not_default p | MCons _ p _ _ _ => not_default p end /\
@@ -791,11 +1025,12 @@ with wf_body (off : nat) (b : lbody) : Prop :=
 with wf_expr (off : nat) (e : lexpr) : Prop :=
   match e with
   | LT t => wf_term off t
-  | LOp a l _ _ e' => wf_atom off a /\ wf_atoms off l /\ wf_expr off e'
+  | LOp a l _ _ e' => wf_atom off a /\ wf_atoms off l /\ (is_slice a = true -> l = ANil) /\ wf_expr off e'
   end
 with wf_stmt (off : nat) (s : lstmt) : Prop :=
   match s with
   | LLet _ _ e => wf_expr off e
+  | LLetD _ _ _ _ e => wf_expr off e
   | LLetFn _ _ _ b => wf_body off b
   | LExpr e => wf_expr off e
   end
@@ -825,9 +1060,17 @@ with wf_sarms (off : nat) (prev : option nat) (a : lsarms) : Prop :=
   end.
 
 (** root statements are lets; the next one starts left of everything the previous one left open *)
+Definition wf_root (x : lroot) : Prop :=
+  match x with
+  | RLetL s => wf_stmt 0 s /\ match s with LExpr _ => False | LLetD _ _ _ _ _ => False | _ => True end
+  | RUnionL _ _ _ _ _ => True                                (* cases are not tested against any column *)
+  | RInfoL _ _ c0 _ defs => 0 < c0 /\ Forall (fun d => c0 <= snd (fst d)) defs
+  | RLineL _ _ => True
+  end.
+Definition root_bd (x : lroot) : option nat :=
+  match x with RLetL s => stmt_bd s | RInfoL _ _ c0 _ _ => Some c0 | _ => None end.
 Fixpoint wf_prog (prev : option nat) (p : lprog) : Prop :=
   match p with
   | [] => True
-  | (_, c, s) :: p' =>
-      under prev c /\ wf_stmt 0 s /\ match s with LExpr _ => False | _ => True end /\ wf_prog (stmt_bd s) p'
+  | (_, c, x) :: p' => under prev c /\ wf_root x /\ wf_prog (root_bd x) p'
   end.
